@@ -65,6 +65,11 @@ def generate(streams: Streams, tier: str, index: int) -> dict:
     hist = world.random_history(rng, allow_overlap=allow_overlap,
                                 small_motion=(not allow_overlap and rng.random() < 0.2))
     crng = streams["config"]
+    if crng.random() < 0.04 and hist["frames"]:
+        # integer time stamps that no double can hold exactly (nanosecond epoch counters)
+        t0 = crng.choice([2 ** 60, 2 ** 53, 1_790_000_000_000_000_000])
+        step = crng.choice([1, 1, 3, 1000])
+        hist = {**hist, "frames": [{**f, "t": t0 + 1 + k * step} for k, f in enumerate(hist["frames"])]}
     return {"history": hist, "configs": gen_configs(crng, hist["box"], crng.choice([2, 3, 4]))}
 
 
@@ -108,8 +113,21 @@ def build_etc(frames, how: str = "ctor"):
     return etc
 
 
+def tkey(t) -> str:
+    """Exact value of a time stamp, whatever its numeric type (an int beyond 2**53 and the
+    float next to it are different times)."""
+    import fractions
+
+    import numpy as np
+
+    if isinstance(t, (int, np.integer)) and not isinstance(t, bool):
+        return str(fractions.Fraction(int(t)))
+    f = float(t)
+    return str(fractions.Fraction(f)) if math.isfinite(f) else repr(f)
+
+
 def etc_fingerprint(etc):
-    return [[repr(type(t)), float(t).hex(), [[type(d).__name__, d.data.tobytes().hex()] for d in e]]
+    return [[repr(type(t)), tkey(t), [[type(d).__name__, d.data.tobytes().hex()] for d in e]]
             for t, e in zip(etc.times, etc.emulsions)]
 
 
@@ -155,7 +173,7 @@ def execute(case: dict) -> Outcome:
         etc = build_etc(frames, cfg.get("build", "ctor"))
         cnt.inc("build." + cfg.get("build", "ctor"))
         fp_before = etc_fingerprint(etc)
-        ftimes = [float(t) for t in etc.times]
+        ftimes = [tkey(t) for t in etc.times]
         sig_cfg = {"method": cfg["method"], "grid": str(bool(cfg.get("grid")))}
         try:
             tracks = run_tracking(etc, cfg, box)
@@ -173,14 +191,14 @@ def execute(case: dict) -> Outcome:
         want = collections.Counter()
         for f_t, em in zip(etc.times, etc.emulsions):
             for d in em:
-                want[(float(f_t).hex(), type(d).__name__, d.data.tobytes())] += 1
+                want[(tkey(f_t), type(d).__name__, d.data.tobytes())] += 1
         got = collections.Counter()
         bad_len = False
         for tr in tracks:
             if len(tr.times) != len(tr.droplets):
                 bad_len = True
             for t, d in zip(tr.times, tr.droplets):
-                got[(float(t).hex(), type(d).__name__, d.data.tobytes())] += 1
+                got[(tkey(t), type(d).__name__, d.data.tobytes())] += 1
         log.add("tracks", cfg=cfg, n=len(tracks),
                 shape=[[float(t) for t in tr.times] for tr in tracks])
         if bad_len:
@@ -198,7 +216,7 @@ def execute(case: dict) -> Outcome:
         # O3 at most one droplet per frame and gap-free runs (non-overlapping frames only)
         if overlap_free:
             for tr in tracks:
-                ts = [float(t) for t in tr.times]
+                ts = [tkey(t) for t in tr.times]
                 idx = [ftimes.index(t) for t in ts if t in ftimes]
                 if len(idx) != len(ts):
                     continue  # already reported by O1
